@@ -95,3 +95,54 @@ class SshdFamily(Family):
         if self.prop == "C05":
             return G.form_cases(rng, n // 2, forms=G.ACCEPTED, oks=("ok", "fail"), hands=("ready", "cancel")) + G.malformed_cases(rng, n // 2)
         return G.malformed_cases(rng, n // 2) + G.form_cases(rng, n // 2, adversarial_every=2, oks=("ok", "fail"))
+
+
+class C07Family(SshdFamily):
+    """direct call vs. the same record framed through the syslog ingester"""
+    harness_mode = ["c07"]
+
+    def __init__(self):
+        self.prop = "C07"
+        self.driver_args = ["c07"]
+        self.uses_gen = ("RE", "ProcessEntry", "userTypeLogAuditFn")
+
+    def harness_line(self, c):
+        return "%s %s %s %s %s %s" % (c["id"], hx(c["pid"]), hx(c["pad"]), hx(c["line"]), c["ok"], c["h"])
+
+    def driver_line(self, c, impl_obs):
+        s = self.harness_line(c)
+        if impl_obs is not None:
+            parts = impl_obs.split(" ")
+            if len(parts) == 2:
+                s += " obs=%s dobs=%s" % (parts[0], parts[1])
+        return s
+
+    def impl_obs(self, raw):
+        return raw.split(" ")[0]
+
+    def sample(self, c):
+        d = SshdFamily.sample(self, c)
+        d["padding"] = len(c["pad"])
+        return d
+
+    def shrink_candidates(self, c):
+        return [dict(x, pad=c["pad"]) for x in SshdFamily.shrink_candidates(self, c)]
+
+    def _prep(self, cs, rng):
+        out = []
+        for c in cs:
+            if " " in c["pid"] or "\n" in c["pid"] or c["line"].startswith(" ") or "\n" in c["line"]:
+                continue
+            c["pad"] = " " * (1 + (rng.below(3) if rng.below(4) == 0 else 0))
+            out.append(c)
+        return out
+
+    def cases(self, tier, rng):
+        n = 1 if tier == "quick" else 8
+        self.rule = "every message form and malformed line, once directly and once framed '<pid><pad><msg>\\n' through SyslogIngester.Process; non-trivial = the direct call produced an event"
+        cs = G.form_cases(rng, 5000 * n, adversarial_every=3, oks=("ok", "ok", "fail"), hands=("ready", "ready", "cancel"), pids=G.PIDS_OK + ["0", "-5", "abc"])
+        cs += G.malformed_cases(rng, 2000 * n)
+        return self._prep(cs, rng)
+
+    def extra_cases(self, rng, n):
+        return self._prep(G.form_cases(rng, n, adversarial_every=2) , rng)
